@@ -58,6 +58,17 @@ def check(el, ops, probe_syms):
         A.flags.add('twin-unbuildable')
         return A, None
     va, vb = verdicts(A), verdicts(B)
+    # the rebuilt twin is a reference only where it is itself consistent with the schema (it is not, for some
+    # multisets of the matcher types of the open C02/C12 findings): judged by the oracle, not by a type list
+    if A.dfa is not None:
+        cnt = parikh(survivors)
+        if vb['string'][0] == 'ok':
+            if not isinstance(vb['ordered'], list) or not A.dfa.accepts(tuple(vb['ordered'])):
+                A.flags.add('twin-contradicts-oracle')
+                return A, None
+        elif vb['string'][0] == 'XMLElementChildrenRequired' and A.dfa.arrangements(cnt, limit=1) >= 1:
+            A.flags.add('twin-contradicts-oracle')
+            return A, None
     if va['string'][0] != vb['string'][0]:
         if va['string'][0] == 'XMLElementChildrenRequired' and vb['string'][0] == 'ok':
             return A, F('stale-required-after-remove', {'A': va['string'], 'B': 'ok'})
